@@ -593,6 +593,17 @@ def compare_projected(rec, kinds, tree=False, values=False, residue=False):
     return None
 
 
+def lean_spec_c02(rec):
+    """verdicts of the Lean predicates CV.Core.passOrderOk / handlerOrderOk on the implementation log"""
+    out = []
+    ls = rec.get('leanspec') or {}
+    if ls.get('pass_impl', 'ok').startswith('fail'):
+        out.append(('pass-order', 'CV.Core.passOrderOk is false on the implementation log'))
+    if ls.get('horder_impl', 'ok').startswith('fail'):
+        out.append(('handler-order', 'CV.Core.handlerOrderOk is false on the implementation log'))
+    return out
+
+
 def run_scenarios(ctx, prop, scenarios, kinds, nontrivial, tree=False, values=False, residue=False, extra_oracles=()):
     """run a batch, record disagreements (B) and violations (C)"""
     oracles = [ORACLES[prop]] + [ORACLES[p] for p in extra_oracles]
@@ -619,6 +630,15 @@ def run_scenarios(ctx, prop, scenarios, kinds, nontrivial, tree=False, values=Fa
                         viol += orc(w)
                     except Exception as ex:  # an oracle bug must not masquerade as a violation
                         ctx.count('oracle_errors', f'{orc.__name__}:{type(ex).__name__}:{ex}'[:100])
+            if prop == 'C02' and not rec['error'] and not any(op[0] == 'do' and op[2][0] in ('reg', 'unreg') and i > 3
+                                                              for i, op in enumerate(getattr(w, 'ops', []))):
+                lv = lean_spec_c02(rec)
+                ctx.count('lean_spec_c02', 'fail' if lv else 'ok')
+                have = {s for s, _ in viol}
+                viol += [(s, m) for s, m in lv if s not in have]
+                ls = rec.get('leanspec') or {}
+                if ls.get('pass_model', 'ok') != 'ok' or ls.get('horder_model', 'ok') != 'ok':
+                    ctx.disagree(case, {'where': 'model-log-violates-spec', 'detail': ls})
             seen = set()
             for sig, msg in viol:
                 if sig in seen:
